@@ -16,6 +16,39 @@ import traceback
 from build import MachineryError
 from driver import Driver, DriverDied, Hang, Rejected
 
+_SNAPSHOT_COMPLETE = None
+# fields the H2 snapshot leaves out on purpose (DESIGN 2.1: overwritten before read / immutable / covered by name)
+_SNAPSHOT_EXEMPT = {"line", "raw_line", "painter", "config", "writer", "syntax", "highlighter",
+                    "line_numbers_data", "merge_conflict_lines", "merge_conflict_commit_names"}
+
+
+def snapshot_complete():
+    """Does the H2 snapshot (src/verif_hooks.rs) name every mutable field the tree's StateMachine and Painter have
+    now? Deduplicating on an incomplete snapshot would merge states with different futures (a field added by a later
+    change); the search then keys states by their whole history instead - slower, never unsound."""
+    global _SNAPSHOT_COMPLETE
+    if _SNAPSHOT_COMPLETE is None:
+        import re
+        import build
+        try:
+            hooks = open(os.path.join(build.REPO, "src/verif_hooks.rs")).read()
+            body = hooks[hooks.index("fn snapshot("):hooks.index("pub fn boundary(")]
+            missing = []
+            for path, struct, var in (("src/delta.rs", "pub struct StateMachine", "sm"),
+                                      ("src/paint.rs", "pub struct Painter", "p")):
+                src = open(os.path.join(build.REPO, path)).read()
+                i = src.index(struct)
+                fields = re.findall(r"^    pub (\w+):", src[i:src.index("\n}\n", i)], re.M)
+                missing += ["%s.%s" % (var, f) for f in fields
+                            if f not in _SNAPSHOT_EXEMPT and not re.search(r"\b%s\.%s\b" % (var, f), body)]
+            _SNAPSHOT_COMPLETE = not missing
+            if missing:
+                sys.stderr.write("note: H2 snapshot does not cover %s - states are keyed by their history\n"
+                                 % ", ".join(missing))
+        except (OSError, ValueError):
+            _SNAPSHOT_COMPLETE = False
+    return _SNAPSHOT_COMPLETE
+
 
 class Violation(object):
     def __init__(self, klass, message, history=None, step=None, expected=None, observed=None,
@@ -232,7 +265,7 @@ def bfs(problem, driver, cid, stats=None, batch=256, max_states=None, deadline=N
                     record(ve, "eof-after:")
                     if len(violations) >= max_violations:
                         return stats, violations
-                snap = tr[n][1] if problem.use_snapshot() else b"".join(h2)
+                snap = tr[n][1] if problem.use_snapshot() and snapshot_complete() else b"\n".join(h2)
                 key = (h64(snap), problem.model_key(model2), ps2)
                 stats.snapshots.add(key[0])
                 if dedup and key in seen:
